@@ -25,6 +25,25 @@ Proof.
   unfold do_add. destruct (pure_add a b) as [v|]; [exists (Ret v), h; reflexivity | apply fire_tenv].
 Qed.
 
+Lemma do_str_tenv v (h : hist) : exists o h', forall t : tenv, do_str respond v (h, t) = (o, (h', t)).
+Proof. destruct v; simpl; try apply fire_tenv. exists (Ret (VStr s)), h; reflexivity. Qed.
+
+Lemma tpl1_tail_tenv q0 v q1 (h : hist) :
+  exists o h', forall t : tenv, tpl1_tail respond q0 v q1 (h, t) = (o, (h', t)).
+Proof.
+  unfold tpl1_tail. destruct (do_str_tenv v h) as (o & h1 & E).
+  destruct o as [r|r]; eexists; eexists; intros t; rewrite E; reflexivity.
+Qed.
+
+Lemma tpl2_tail_tenv q0 v1 q1 v2 q2 (h : hist) :
+  exists o h', forall t : tenv, tpl2_tail respond q0 v1 q1 v2 q2 (h, t) = (o, (h', t)).
+Proof.
+  unfold tpl2_tail. destruct (do_str_tenv v1 h) as (o & h1 & E).
+  destruct o as [r|r]; [|eexists; eexists; intros t; rewrite E; reflexivity].
+  destruct (do_str_tenv v2 h1) as (o2 & h2 & E2).
+  destruct o2 as [r2|r2]; eexists; eexists; intros t; rewrite E; cbn [bind]; rewrite E2; reflexivity.
+Qed.
+
 (* source expressions neither read nor write temporaries: same outcome/history under any temp store *)
 Lemma src_tenv e : src e -> forall (h : hist) (t : tenv), exists o h', forall t2 : tenv, eval e (h, t2) = (o, (h', t2)).
 Proof.
@@ -89,6 +108,19 @@ Proof.
     destruct (respond h2 (EvCallT vf vo [va])) eqn:R;
       [exists (Ret v)|exists (Thr v)]; exists (h2 ++ [EvCallT vf vo [va]]); intros; rewrite E1; simpl;
       unfold fire; rewrite RG; simpl; rewrite E2; simpl; rewrite R; reflexivity.
+  - (* template, one substitution *)
+    destruct (IHe Hs h t) as (o1 & h1 & E1).
+    destruct o1 as [v|v]; [|exists (Thr v), h1; intros; rewrite E1; reflexivity].
+    destruct (tpl1_tail_tenv q0 v q1 h1) as (o2 & h2 & E2).
+    exists o2, h2. intros. rewrite E1. cbn [bind]. apply E2.
+  - (* template, two substitutions *)
+    destruct Hs as [Hl Hr].
+    destruct (IHe1 Hl h t) as (o1 & h1 & E1).
+    destruct o1 as [a|a]; [|exists (Thr a), h1; intros; rewrite E1; reflexivity].
+    destruct (IHe2 Hr h1 t) as (o2 & h2 & E2).
+    destruct o2 as [b|b]; [|exists (Thr b), h2; intros; rewrite E1; cbn [bind]; rewrite E2; reflexivity].
+    destruct (tpl2_tail_tenv q0 a q1 b q2 h2) as (o3 & h3 & E3).
+    exists o3, h3. intros. rewrite E1. cbn [bind]. rewrite E2. cbn [bind]. apply E3.
 Qed.
 
 (** ** Operands that stay in place *)
@@ -179,6 +211,15 @@ Lemma eval_hoist3 n1 e1 n2 e2 n3 e3 b (s : st) :
   bind (eval e3 (fst s2, upd (snd s2) n2 v2)) (fun v3 s3 => eval b (fst s3, upd (snd s3) n3 v3)))).
 Proof. reflexivity. Qed.
 
+Lemma eval_tpl1 q0 e q1 (s : st) :
+  eval (Tpl1 q0 e q1) s = bind (eval e s) (fun v s1 => tpl1_tail respond q0 v q1 s1).
+Proof. reflexivity. Qed.
+
+Lemma eval_tpl2 q0 e1 q1 e2 q2 (s : st) :
+  eval (Tpl2 q0 e1 q1 e2 q2) s =
+  bind (eval e1 s) (fun v1 s1 => bind (eval e2 s1) (fun v2 s2 => tpl2_tail respond q0 v1 q1 v2 q2 s2)).
+Proof. reflexivity. Qed.
+
 Lemma fire_ret ev (h : hist) (t : tenv) v : respond h ev = RRet v -> fire respond ev (h, t) = (Ret v, ((h ++ [ev] : hist), t)).
 Proof. intros R. unfold fire. rewrite R. reflexivity. Qed.
 Lemma fire_thr ev (h : hist) (t : tenv) v : respond h ev = RThr v -> fire respond ev (h, t) = (Thr v, ((h ++ [ev] : hist), t)).
@@ -195,6 +236,16 @@ Qed.
 Variable instr : string -> bool.
 Variable lit_ok : string -> bool.
 Notation rw := (rw instr lit_ok).
+
+Lemma rw_tpl1_eq q0 e q1 c :
+  rw (Tpl1 q0 e q1) c = if is_lit e then (Tpl1 q0 e q1, c) else let '(e', c1) := rw e c in rw_tpl1 q0 e' q1 c1.
+Proof. reflexivity. Qed.
+
+Lemma rw_tpl2_eq q0 e1 q1 e2 q2 c :
+  rw (Tpl2 q0 e1 q1 e2 q2) c =
+  if is_lit e1 || is_lit e2 then (Tpl2 q0 e1 q1 e2 q2, c)
+  else let '(e1', c1) := rw e1 c in let '(e2', c2) := rw e2 c1 in rw_tpl2 q0 e1' q1 e2' q2 c2.
+Proof. reflexivity. Qed.
 
 (** The two possible results of rewriting a sum whose operands have been rewritten. *)
 Definition lit_or_sum (x : expr) : Prop := is_lit x = true \/ exists a b, x = Add a b.
@@ -267,15 +318,24 @@ Proof.
       destruct Hk as [Hk | (a & b & Hk)]; discriminate.
   - (* method call without argument *)
     simpl in Hk. destruct (rw e c) as [o' c1].
-    destruct (instr m && (negb (is_lit o') || lit_ok m)).
+    destruct (instr m && (negb (is_lit o') || lit_ok m) && recv_ok o').
     + unfold rw_mcall0 in Hk. destruct (is_lit o'); simpl in Hk; destruct Hk as [Hk | (a & b & Hk)]; discriminate.
     + simpl in Hk. destruct Hk as [Hk | (a & b & Hk)]; discriminate.
   - (* method call: the result is a call or an injected sequence *)
     simpl in Hk. destruct (rw e1 c) as [o' c1]. destruct (rw e2 c1) as [a' c2].
-    destruct (instr m && (negb (is_lit o') || lit_ok m)).
+    destruct (instr m && (negb (is_lit o') || lit_ok m) && recv_ok o').
     + unfold rw_mcall in Hk. destruct (is_lit o'); destruct (arg_act a'); simpl in Hk;
         destruct Hk as [Hk | (a & b & Hk)]; discriminate.
     + simpl in Hk. destruct Hk as [Hk | (a & b & Hk)]; discriminate.
+  - (* template: the result is a template, a hook call or an injected sequence *)
+    rewrite rw_tpl1_eq in Hk. destruct (is_lit e).
+    + simpl in Hk. destruct Hk as [Hk | (a & b & Hk)]; discriminate.
+    + destruct (rw e c) as [e' c1]. unfold rw_tpl1 in Hk.
+      destruct (arg_act e'); simpl in Hk; destruct Hk as [Hk | (a & b & Hk)]; discriminate.
+  - rewrite rw_tpl2_eq in Hk. destruct (is_lit e1 || is_lit e2).
+    + simpl in Hk. destruct Hk as [Hk | (a & b & Hk)]; discriminate.
+    + destruct (rw e1 c) as [l' c1]. destruct (rw e2 c1) as [r' c2]. unfold rw_tpl2 in Hk.
+      destruct (arg_act l'); destruct (arg_act r'); simpl in Hk; destruct Hk as [Hk | (a & b & Hk)]; discriminate.
 Qed.
 
 (* Main statement: same outcome, same history, and only temporaries of the allocated range are touched. *)
@@ -605,7 +665,7 @@ Proof.
     simpl. destruct (rw e c) as [l' c1] eqn:Rl. simpl in I1, P1.
     assert (Hc1 : c <= c1) by (destruct (I1 h t); auto).
     destruct (src_tenv e Hs h t) as (o1 & h1 & E1).
-    destruct (instr m && (negb (is_lit l') || lit_ok m)) eqn:INS.
+    destruct (instr m && (negb (is_lit l') || lit_ok m) && recv_ok l') eqn:INS.
     + unfold rw_mcall0. destruct (is_lit l') eqn:LL.
       * assert (TL : is_triv l' = true) by (destruct l'; simpl in *; congruence).
         destruct (P1 (or_introl TL)) as [Q1 _]. inversion Q1; subst l' c1.
@@ -655,7 +715,7 @@ Proof.
     assert (Hc1 : c <= c1) by (destruct (I1 h t); auto).
     assert (Hc2 : c1 <= c2) by (destruct (I2 h t); auto).
     destruct (src_tenv e1 Hl h t) as (o1 & h1 & E1).
-    destruct (instr m && (negb (is_lit l') || lit_ok m)) eqn:INS.
+    destruct (instr m && (negb (is_lit l') || lit_ok m) && recv_ok l') eqn:INS.
     + (* instrumented *)
       unfold rw_mcall.
       assert (DA : arg_act r' = Hoist \/ arg_act r' <> Hoist) by (destruct (arg_act r'); auto; right; discriminate).
@@ -765,6 +825,98 @@ Proof.
       destruct (respond h2 (EvCallT vf vo [va])) eqn:RC;
         [rewrite (fire_ret t RC) in E; rewrite (fire_ret t2 RC) | rewrite (fire_thr t RC) in E; rewrite (fire_thr t2 RC)];
         inversion E; subst o h'; eexists; (split; [reflexivity|frame_tac]).
+  - (* template with one substitution *)
+    rewrite rw_tpl1_eq. destruct (is_lit e) eqn:LE.
+    + cbn [fst snd]. split; [lia|]. intros o h' E. exists t. split; [apply E | apply frame_refl].
+    + pose proof (IHe Hs c) as I1. pose proof (rw_inplace_src e c Hs) as P1.
+      destruct (rw e c) as [e' c1] eqn:Re. simpl in I1, P1.
+      assert (Hc1 : c <= c1) by (destruct (I1 h t); auto).
+      destruct (src_tenv e Hs h t) as (o1 & h1 & E1).
+      unfold rw_tpl1.
+      assert (DA : arg_act e' = Hoist \/ arg_act e' <> Hoist) by (destruct (arg_act e'); auto; right; discriminate).
+      destruct DA as [HA | NA].
+      * rewrite HA. cbn [wrap fst snd]. split; [lia|]. intros o h' E.
+        destruct (I1 h t) as (_ & K1). destruct (K1 o1 h1 E1) as (t1 & El & F1).
+        rewrite eval_hoist1, El. specialize (E t). rewrite eval_tpl1, E1 in E.
+        destruct o1 as [v|v]; cbn [bind fst snd] in *; [|inversion E; subst o h'; eexists; split; [reflexivity|frame_tac]].
+        rewrite hook_pure by (repeat constructor; apply pure_tmp).
+        rewrite eval_tpl1, eval_tmp. cbn [bind fst snd]. rewrite upd_same.
+        destruct (tpl1_tail_tenv q0 v q1 h1) as (o2 & h2 & E2). rewrite E2 in E. rewrite E2.
+        inversion E; subst o h'. eexists; split; [reflexivity|frame_tac].
+      * destruct (arg_not_hoist e' NA) as [SH _]. destruct (P1 SH) as [Q1 IP1]. inversion Q1; subst e' c1.
+        destruct (arg_act e) eqn:AA; try congruence; cbn [wrap fst snd]; (split; [lia|]); intros o h' E;
+          exists t; (split; [|apply frame_refl]);
+          rewrite hook_pure by (repeat constructor; apply pure_inplace; exact IP1); apply E.
+  - (* template with two substitutions *)
+    destruct Hs as [Hl Hr]. rewrite rw_tpl2_eq. destruct (is_lit e1 || is_lit e2) eqn:LE.
+    + cbn [fst snd]. split; [lia|]. intros o h' E. exists t. split; [apply E | apply frame_refl].
+    + pose proof (IHe1 Hl c) as I1. pose proof (rw_inplace_src e1 c Hl) as P1.
+      destruct (rw e1 c) as [l' c1] eqn:Rl. simpl in I1, P1.
+      pose proof (IHe2 Hr c1) as I2. pose proof (rw_inplace_src e2 c1 Hr) as P2.
+      destruct (rw e2 c1) as [r' c2] eqn:Rr. simpl in I2, P2.
+      assert (Hc1 : c <= c1) by (destruct (I1 h t); auto).
+      assert (Hc2 : c1 <= c2) by (destruct (I2 h t); auto).
+      destruct (src_tenv e1 Hl h t) as (o1 & h1 & E1).
+      unfold rw_tpl2.
+      assert (DL : arg_act l' = Hoist \/ arg_act l' <> Hoist) by (destruct (arg_act l'); auto; right; discriminate).
+      assert (DR : arg_act r' = Hoist \/ arg_act r' <> Hoist) by (destruct (arg_act r'); auto; right; discriminate).
+      destruct DL as [HL | NL]; destruct DR as [HR | NR].
+      * (* both captured *)
+        rewrite HL, HR. cbn [app wrap fst snd]. split; [lia|]. intros o h' E.
+        destruct (I1 h t) as (_ & K1). destruct (K1 o1 h1 E1) as (t1 & El & F1).
+        rewrite eval_hoist2, El. specialize (E t). rewrite eval_tpl2, E1 in E.
+        destruct o1 as [a|a]; cbn [bind fst snd] in *; [|inversion E; subst o h'; eexists; split; [reflexivity|frame_tac]].
+        destruct (src_tenv e2 Hr h1 t) as (o2 & h2 & E2).
+        destruct (I2 h1 (upd t1 c2 a)) as (_ & K2). destruct (K2 o2 h2 E2) as (t2 & Er & F2).
+        rewrite Er. rewrite E2 in E.
+        destruct o2 as [b|b]; cbn [bind fst snd] in *; [|inversion E; subst o h'; eexists; split; [reflexivity|frame_tac]].
+        rewrite hook_pure by (repeat constructor; apply pure_tmp).
+        rewrite eval_tpl2. step_eval. rewrite upd_same.
+        assert (Hk : upd t2 (S c2) b c2 = a).
+        { rewrite upd_other by lia. rewrite F2 by lia. apply upd_same. }
+        rewrite Hk.
+        destruct (tpl2_tail_tenv q0 a q1 b q2 h2) as (o3 & h3 & E3). rewrite E3 in E. rewrite E3.
+        inversion E; subst o h'. eexists; split; [reflexivity|frame_tac].
+      * (* the first captured, the second in place *)
+        destruct (arg_not_hoist r' NR) as [SH _]. destruct (P2 SH) as [Q2 IP2]. inversion Q2; subst r' c2.
+        assert (GEN : forall args, Forall pure_expr args ->
+                  forall o h', (forall t2 : tenv, eval (Tpl2 q0 e1 q1 e2 q2) (h, t2) = (o, (h', t2))) ->
+                  exists t', eval (Hoist1 c1 l' (Hook (Tpl2 q0 (Tmp c1) q1 e2 q2) args)) (h, t) = (o, (h', t')) /\ frame c (S c1) t t').
+        { intros args PA o h' E.
+          destruct (I1 h t) as (_ & K1). destruct (K1 o1 h1 E1) as (t1 & El & F1).
+          rewrite eval_hoist1, El. specialize (E t). rewrite eval_tpl2, E1 in E.
+          destruct o1 as [a|a]; cbn [bind fst snd] in *; [|inversion E; subst o h'; eexists; split; [reflexivity|frame_tac]].
+          rewrite (hook_pure _ _ PA). rewrite eval_tpl2, eval_tmp. cbn [bind fst snd]. rewrite upd_same.
+          destruct (src_tenv e2 Hr h1 t) as (o2 & h2 & E2). rewrite E2 in E. rewrite E2.
+          destruct o2 as [b|b]; cbn [bind] in *; [|inversion E; subst o h'; eexists; split; [reflexivity|frame_tac]].
+          destruct (tpl2_tail_tenv q0 a q1 b q2 h2) as (o3 & h3 & E3). rewrite E3 in E. rewrite E3.
+          inversion E; subst o h'. eexists; split; [reflexivity|frame_tac]. }
+        rewrite HL.
+        destruct (arg_act e2) eqn:RA; try congruence; cbn [app fst snd wrap];
+          (split; [lia|]); apply GEN; repeat constructor; try apply pure_tmp; apply pure_inplace; exact IP2.
+      * (* the first in place (a constant), the second captured *)
+        destruct (arg_not_hoist l' NL) as [SH CK]. destruct (P1 SH) as [Q1 IP1]. inversion Q1; subst l' c1.
+        destruct (const_of_inplace IP1 CK) as (a & Ca).
+        assert (GEN : forall args, Forall pure_expr args ->
+                  forall o h', (forall t2 : tenv, eval (Tpl2 q0 e1 q1 e2 q2) (h, t2) = (o, (h', t2))) ->
+                  exists t', eval (Hoist1 c2 r' (Hook (Tpl2 q0 e1 q1 (Tmp c2) q2) args)) (h, t) = (o, (h', t')) /\ frame c (S c2) t t').
+        { intros args PA o h' E.
+          destruct (src_tenv e2 Hr h t) as (o2 & h2 & E2).
+          destruct (I2 h t) as (_ & K2). destruct (K2 o2 h2 E2) as (t2 & Er & F2).
+          rewrite eval_hoist1, Er. specialize (E t). rewrite eval_tpl2, Ca in E. cbn [bind] in E. rewrite E2 in E.
+          destruct o2 as [b|b]; cbn [bind fst snd] in *; [|inversion E; subst o h'; eexists; split; [reflexivity|frame_tac]].
+          rewrite (hook_pure _ _ PA). rewrite eval_tpl2, Ca. cbn [bind]. rewrite eval_tmp. cbn [bind fst snd]. rewrite upd_same.
+          destruct (tpl2_tail_tenv q0 a q1 b q2 h2) as (o3 & h3 & E3). rewrite E3 in E. rewrite E3.
+          inversion E; subst o h'. eexists; split; [reflexivity|frame_tac]. }
+        rewrite HR.
+        destruct (arg_act e1) eqn:LA; try congruence; cbn [app fst snd wrap];
+          (split; [lia|]); apply GEN; repeat constructor; try apply pure_tmp; apply pure_inplace; exact IP1.
+      * (* both in place *)
+        destruct (arg_not_hoist l' NL) as [SH1 _]. destruct (P1 SH1) as [Q1 IP1]. inversion Q1; subst l' c1.
+        destruct (arg_not_hoist r' NR) as [SH2 _]. destruct (P2 SH2) as [Q2 IP2]. inversion Q2; subst r' c2.
+        destruct (arg_act e1) eqn:LA; try congruence; destruct (arg_act e2) eqn:RA; try congruence;
+          cbn [app fst snd wrap]; (split; [lia|]); intros o h' E; exists t; (split; [|apply frame_refl]);
+          rewrite hook_pure by (repeat constructor; apply pure_inplace; assumption); apply E.
 Qed.
 
 End Proofs.
